@@ -55,11 +55,25 @@ Definition truncate (rs : list interval) : list interval :=
   then skipn (length rs - Z.to_nat rph_MaxNumAckRanges) rs
   else rs.
 
+(** End of the highest range that the truncation drops ([h.ranges[n-1].End]); [None]: nothing dropped. *)
+Definition trimmed_end (rs : list interval) : option Z :=
+  match rev (firstn (length rs - Z.to_nat rph_MaxNumAckRanges) rs) with
+  | [] => None
+  | (_, e) :: _ => Some e
+  end.
+
+(** [ReceivedPacket] (with fixes/C07-trimmed-history-counts-as-received.patch): when the oldest
+    ranges are forgotten, [deletedBelow] is raised past them, so that everything at or below what
+    was forgotten counts as (potentially) received. *)
 Definition hist_recv (h : hist) (p : Z) : hist * bool :=
   if p <? deletedBelow h then (h, false)
   else
     let (rs, isNew) := addToRanges p (ranges h) in
-    (mkHist (truncate rs) (deletedBelow h), isNew).
+    let db := match trimmed_end rs with
+              | Some e => Z.max (deletedBelow h) (e + 1)
+              | None => deletedBelow h
+              end in
+    (mkHist (truncate rs) db, isNew).
 
 (** The ascending loop of [DeleteBelow]: whole ranges below [p] go, a range containing [p]
     strictly inside is cut, anything else stops the loop. *)
